@@ -4,6 +4,7 @@
 package gw
 
 import (
+	"strconv"
 	"bufio"
 	"bytes"
 	"encoding/json"
@@ -296,13 +297,16 @@ func FreePort() int {
 	// and KDCs get their ports from that range (":0"), and one of them taking the port between this probe and the
 	// gateway's own bind made the gateway exit with "address already in use" after the harness had seen "something
 	// listens there" (rare "connection refused" for every script of one instance)
+	// ... and every test process keeps to a slice of its own (500 ports, chosen by its pid): several of them run on one
+	// machine at the same time
+	lo := 12000 + (os.Getpid()%40)*500
 	if portNext == 0 {
-		portNext = 12000 + (os.Getpid()*7919+int(time.Now().UnixNano()%9973))%20000
+		portNext = lo + int(time.Now().UnixNano()%400)
 	}
 	for i := 0; i < 5000; i++ {
 		portNext++
-		if portNext > 32000 {
-			portNext = 12000
+		if portNext >= lo+500 {
+			portNext = lo
 		}
 		l, err := net.Listen("tcp", fmt.Sprintf(":%d", portNext))
 		if err != nil {
@@ -312,6 +316,46 @@ func FreePort() int {
 		return portNext
 	}
 	return 0
+}
+
+// ListensOn tells whether process pid holds a listening TCP socket on the given port (several test processes on one
+// machine hand out ports from the same range: "somebody listens there" is not "this gateway listens there").
+func ListensOn(pid, port int) bool {
+	inodes := map[string]bool{}
+	for _, f := range []string{"/proc/net/tcp", "/proc/net/tcp6"} {
+		b, err := os.ReadFile(f)
+		if err != nil {
+			continue
+		}
+		for _, ln := range strings.Split(string(b), "\n")[1:] {
+			fs := strings.Fields(ln)
+			if len(fs) < 10 || fs[3] != "0A" {
+				continue
+			}
+			k := strings.LastIndex(fs[1], ":")
+			if k < 0 {
+				continue
+			}
+			if p, err := strconv.ParseInt(fs[1][k+1:], 16, 32); err == nil && int(p) == port {
+				inodes[fs[9]] = true
+			}
+		}
+	}
+	if len(inodes) == 0 {
+		return false
+	}
+	ents, err := os.ReadDir(fmt.Sprintf("/proc/%d/fd", pid))
+	if err != nil {
+		return false
+	}
+	for _, e := range ents {
+		if l, err := os.Readlink(fmt.Sprintf("/proc/%d/fd/%s", pid, e.Name())); err == nil && strings.HasPrefix(l, "socket:[") {
+			if inodes[strings.TrimSuffix(strings.TrimPrefix(l, "socket:["), "]")] {
+				return true
+			}
+		}
+	}
+	return false
 }
 
 // StartOpts control how the process is started.
@@ -416,6 +460,11 @@ func start1(cfg *Config, o StartOpts) (*Proc, error) {
 		c, err := net.DialTimeout("tcp", p.Addr, 200*time.Millisecond)
 		if err == nil {
 			c.Close()
+			if p.Cmd != nil && p.Cmd.Process != nil && !ListensOn(p.Cmd.Process.Pid, p.Port) {
+				// somebody else's listener (another test process on this machine took the port in between)
+				time.Sleep(3 * time.Millisecond)
+				continue
+			}
 			// somebody listens there - make sure it is this process (a lost bind race
 			// makes the gateway exit with "address already in use" a moment later)
 			time.Sleep(15 * time.Millisecond)
